@@ -2,7 +2,7 @@
    class of slip the translator reports, a two-function table exhibiting it and a concrete history
    on which the state machine returns different results (witness by vm_compute). *)
 From Coq Require Import ZArith List Bool.
-From Centro Require Import Model.HistoryC20 Spec.HistoryC20.
+From Centro Require Import Model.HistoryC20 Spec.HistoryC20 Proofs.HistoryC20.
 Import ListNotations.
 Open Scope Z_scope.
 
@@ -13,7 +13,8 @@ Definition r_const (g : Z) : Z := 100 + g.
 Definition r_argval (f a g : Z) : Z := a.
 Definition r_accval (f a g : Z) (old : option Z) : Z := match old with Some v => v + 1 | None => 0 end.
 Definition r_next (f a : Z) (s : @rsrc Z) (r : Z) : Z := r + 1.
-Definition r_result (t : list sig) := result_after Z Z _ Z t r_const r_argval r_accval r_body r_next.
+Definition r_mval (g a : Z) : Z := 500 + a.
+Definition r_result (t : list sig) := result_after Z Z _ Z t r_const r_argval r_accval r_mval Z.eqb r_body r_next.
 
 (* a module-level cache keyed on nothing that stores an argument-dependent table *)
 Definition t_argdep : list sig := [ mk_sig 0 true [(0, KArg)] [0] [] false false None false [] false ].
@@ -41,6 +42,23 @@ Definition t_unguarded : list sig :=
     mk_sig 1 true [] [0] [0] false false None false [] false ].
 Lemma unguarded_read_refuted : exists h c, r_result t_unguarded 0 h c <> r_result t_unguarded 0 [] c.
 Proof. exists [(0, 5)], (1, 5). vm_compute. intros H. discriminate H. Qed.
+
+(* a memo table whose key does NOT determine the arguments (here: every key equal): the first call's value
+   is served to every later call.  With the full argument as key the same table is history independent
+   (history_independent; the checker accepts KMemo), so the key hypothesis of the theorem is necessary. *)
+Definition t_memo : list sig := [ mk_sig 0 true [(0, KMemo)] [0] [] false false None false [] false ].
+Lemma memo_partial_key_refuted : exists h c,
+  result_after Z Z _ Z t_memo r_const r_argval r_accval r_mval (fun _ _ => true) r_body r_next 0 h c <>
+  result_after Z Z _ Z t_memo r_const r_argval r_accval r_mval (fun _ _ => true) r_body r_next 0 [] c.
+Proof. exists [(0, 1)], (0, 2). vm_compute. intros H. discriminate H. Qed.
+Lemma memo_full_key_example : forall h c, r_result t_memo 0 h c = r_result t_memo 1 [] c.
+Proof.
+  intros h c. unfold r_result.
+  apply (Proofs.HistoryC20.history_independent Z Z _ Z t_memo r_const r_argval r_accval r_mval Z.eqb r_body r_next).
+  - intros a b H. apply Z.eqb_eq. exact H.
+  - exact Z.eqb_refl.
+  - apply Proofs.HistoryC20.sigs_okb_sound. vm_compute. reflexivity.
+Qed.
 
 (* the boolean checker rejects every one of them *)
 Lemma checker_rejects : map sigs_okb [t_argdep; t_accum; t_unseeded; t_entropy; t_unguarded] =
